@@ -486,6 +486,16 @@ where
                 "Instance has incorrect preprocessed width: expected {pre_w}, got {local_prep_len} / {next_prep_len}"
             )));
         }
+        // The constraint compiler indexes the public values by the AIR's public-value variables.
+        let expected_public_values = A::num_public_values(air);
+        if public_values[i].len() != expected_public_values {
+            return Err(VerificationError::InvalidProofShape(format!(
+                "Instance {i} public values length mismatch: the AIR declares \
+                 {expected_public_values}, got {}",
+                public_values[i].len()
+            )));
+        }
+
         let air_width = A::width(air);
         // The next-row opening is suppressed (empty) for AIRs that do not access it.
         let expected_next_len = if air.opens_trace_next() { air_width } else { 0 };
